@@ -10,7 +10,10 @@
 (* Spec: min_len is the GREATEST of {len_char_min = n, not_empty -> 1}     *)
 (* (since the fix; before it the FIRST in written order, so a later larger *)
 (* minimum was shadowed), max_len the first len_char_max or min + 16;      *)
-(* lowercase / uppercase are ignored ("do not overlap with any rule").     *)
+(* a character whose mapping under the declared lowercase / uppercase      *)
+(* sanitizer is longer than one character is replaced (since the fix;      *)
+(* before it the case sanitizers were ignored and U+00DF / U+0130 made the  *)
+(* sanitised string longer than len_char_max).                             *)
 (* DECLARATIVE (C09): the result is a value the constructor accepts, or an *)
 (* arbitrary::Error; never a panic, and the trim loop terminates.          *)
 (***************************************************************************)
@@ -60,10 +63,17 @@ PickLen ==
      ELSE \E t \in Targets(d) : target' = t /\ pc' = "fill" /\ out' = out
   /\ UNCHANGED <<d, output, refills>>
 
+\* `let ch = if ch.to_lowercase().count() == 1 { ch } else { 'x' }` (resp. to_uppercase) when a case sanitizer is declared
+HasSan(dd, k) == \E i \in DOMAIN dd.san : dd.san[i].k = k
+KeepLen(dd, c) ==
+  IF HasSan(dd, "lowercase") /\ Len(EnvLower[c]) # 1 THEN 97
+  ELSE IF HasSan(dd, "uppercase") /\ Len(EnvUpper[c]) # 1 THEN 97
+  ELSE c
+
 \* for _ in 0..target_len { output.push(u.arbitrary()?) }
 Fill ==
   /\ pc = "fill"
-  /\ IF Len(output) < target THEN \E c \in Alphabet : output' = Append(output, c) /\ pc' = pc
+  /\ IF Len(output) < target THEN \E c \in Alphabet : output' = Append(output, KeepLen(d, c)) /\ pc' = pc
      ELSE output' = output /\ pc' = (IF HasTrim(d) THEN "trim_loop" ELSE "construct")
   /\ UNCHANGED <<d, target, refills, out>>
 
@@ -74,7 +84,7 @@ TrimLoop ==
   /\ LET count == Len(TrimS(output)) IN
      IF count = target THEN pc' = "construct" /\ UNCHANGED <<output, refills>>
      ELSE /\ pc' = pc /\ refills' = refills + 1
-          /\ \E c \in (IF refills < 2 THEN Alphabet ELSE {0}) : output' = Append(TrimS(output), c)
+          /\ \E c \in (IF refills < 2 THEN Alphabet ELSE {0}) : output' = Append(TrimS(output), KeepLen(d, c))
   /\ UNCHANGED <<d, target, out>>
 
 \* Self::try_new(inner_value).unwrap_or_else(panic)
@@ -90,7 +100,8 @@ SSpec == SInit /\ [][PickLen \/ Fill \/ TrimLoop \/ Construct]_svars
 MinShadowed(dd) == \E i \in DOMAIN dd.val : dd.val[i].k \in {"len_char_min", "not_empty"} /\
                      (IF dd.val[i].k = "not_empty" THEN 1 ELSE dd.val[i].b) > MinLen(dd)
 CaseExpands(dd) == \E i \in DOMAIN dd.san : dd.san[i].k \in {"lowercase", "uppercase"}
-KnownS(dd) == MinShadowed(dd) \/ (CaseExpands(dd) /\ MaxLikes(dd) # <<>>) \/ MinLen(dd) > MaxLen(dd)
+\* (both candidates are repaired; what is left is a declaration whose minimum exceeds its maximum: no valid value at all)
+KnownS(dd) == MinLen(dd) > MaxLen(dd)
 
 \* C09 on the model
 NoPanic == (pc = "done") => (out.k # "panic" \/ KnownS(d))
